@@ -102,6 +102,7 @@ class Engine
 
   Box boxes_[kMaxLocks];
   std::atomic<uint64_t> fifo_pairs_{0};
+  static inline thread_local uint64_t own_checks_tl_ = 0;
 
   /*---------------------------------------------------------------- C11 ------*/
   void
@@ -284,6 +285,7 @@ class Engine
   void
   CheckOwn(const G &g, bool expect, const char *what)
   {
+    ++own_checks_tl_;
     if (static_cast<bool>(g) != expect) {
       Violate("C07", Fmt("%s:guard-bool-mismatch:%s", g_cls_name, what),
               Fmt("class=%s thread=%d %s: operator bool()=%d, expected %d", g_cls_name, t_mon.tid,
@@ -941,6 +943,8 @@ class Engine
     {
       std::lock_guard<std::mutex> g{merge_mtx_};
       for (auto &[k, v] : stats.c) merged_.c[k] += v;
+      merged_.c["guard_ownership_checks"] += own_checks_tl_;
+      own_checks_tl_ = 0;
       for (int i = 0; i < 64; ++i) sigs_[i] |= t_mon.sigs[i];
     }
     t_mon.stats = nullptr;
